@@ -33,7 +33,17 @@ def main():
   patch = os.path.join(seed_dir, 'patch.diff')
   demos = [f for f in ('demo.py', 'demo_test.py')
            if os.path.exists(os.path.join(seed_dir, f))]
-  demo = os.path.join(seed_dir, demos[0])
+  # run the demo from inside /repo (demos often put dirname(dirname(__file__))
+  # on sys.path, which must be /repo, not the agent's worktree)
+  tmpd = os.path.join('/repo', 'seed_%s' % seed_id.replace('-', '_'))
+  if os.path.isdir(tmpd):
+    shutil.rmtree(tmpd)
+  os.makedirs(tmpd)
+  src_demo = os.path.join(seed_dir, demos[0])
+  demo = os.path.join(tmpd, demos[0])
+  shutil.copy(src_demo, demo)
+  import atexit
+  atexit.register(lambda: shutil.rmtree(tmpd, ignore_errors=True))
   rc, out = sh('git status --short -- openhtf', cwd='/repo')
   if out.strip():
     print('REPO NOT CLEAN', out)
@@ -78,7 +88,7 @@ def main():
     dst = os.path.join(VERIF, 'seeded', seed_id)
     os.makedirs(dst, exist_ok=True)
     shutil.copy(patch, os.path.join(dst, 'patch.diff'))
-    shutil.copy(demo, os.path.join(dst, os.path.basename(demo)))
+    shutil.copy(src_demo, os.path.join(dst, os.path.basename(demo)))
     notes = ''
     if os.path.exists(os.path.join(seed_dir, 'notes.txt')):
       notes = open(os.path.join(seed_dir, 'notes.txt')).read()
